@@ -540,3 +540,29 @@ Proof.
   - contradiction.
   - contradiction.
 Qed.
+
+(* all five entry points at once (the statement of C17.c17_clone_surfaces) *)
+Theorem clone_surfaces_all :
+  forall dc : gv -> gv, (forall v, dc v = v) ->
+  forall ks : bool,
+    (forall p, plan_wf p = true ->
+       surfaces_ok (entry_plan dc false ks p) ks (plan_map action_reqs p) (plan_map action_resps p)) /\
+    (forall b, block_wf b = true ->
+       surfaces_ok (entry_block dc false ks b) ks (block_map action_reqs b) (block_map action_resps b)) /\
+    (forall c, forallb action_wf c = true ->
+       surfaces_ok (entry_checks dc false ks c) ks (flat_map action_reqs c) (flat_map action_resps c)) /\
+    (forall s, forallb action_wf s = true ->
+       match entry_seq dc false ks s with
+       | None => s = []
+       | Some o => surfaces_ok o ks (flat_map action_reqs s) (flat_map action_resps s)
+       end) /\
+    (forall a, action_wf a = true ->
+       surfaces_ok (entry_action dc false ks a) ks (action_reqs a) (action_resps a)).
+Proof.
+  intros dc Hdc ks. repeat split.
+  - intros p W. exact (entry_plan_surfaces dc Hdc ks p W).
+  - intros b W. exact (entry_block_surfaces dc Hdc ks b W).
+  - intros c W. exact (entry_checks_surfaces dc Hdc ks c W).
+  - intros s W. exact (entry_seq_surfaces dc Hdc ks s W).
+  - intros a W. exact (entry_action_surfaces dc Hdc ks a W).
+Qed.
